@@ -34,8 +34,8 @@ PROPS = {
     'C06': {
         'e3': ['choose_path'],
         'units': ['clvmleaves'],
-        'decided': 'the leaves the stepping evaluator re-implements itself: path lookup (choose_path) equals consensus traverse_path incl. path 0; program atoms are read as unsigned paths (path_from_u8, flatten_signed_int, lemma path_of_canonical_atom); truthiness (truthy) equals the consensus nil test in the current integer mode; atom_value',
-        'not_covered': ['run_step / run as a whole (bisimulation with run_program)', 'apply_op delegation', 'translate_head + prim_map', 'eval_args', 'combine', 'that run_step calls the verified leaves (call sites are unverified)'],
+        'decided': 'the leaves the stepping evaluator re-implements itself: path lookup (choose_path) equals consensus traverse_path incl. path 0; program atoms are read as unsigned paths (path_from_u8, flatten_signed_int, lemma path_of_canonical_atom); truthiness (truthy) equals the consensus nil test in the current integer mode; atom_value; generate_argument_refs produces the paths 3*2^(k+j)-1 which select the j-th argument (lemma arg_ref_selects)',
+        'not_covered': ['run_step / run as a whole (bisimulation with run_program)', 'apply_op delegation', 'translate_head + prim_map', 'eval_args', 'combine', 'that apply_op passes start = 5 and the environment (nil . args)', 'that run_step calls the verified leaves (call sites are unverified)'],
     },
     'C07': {
         'e3': ['convert'],
